@@ -14,7 +14,7 @@ use serde_json::{json, Value};
 
 #[derive(Clone, Debug)]
 pub struct Case {
-    pub ctor: usize,   // 0 new(first only), 1 new(all), 2 with_safety
+    pub ctor: usize,   // 0 new(first only), 1 new(all), 2 with_safety, 3 with_safety(no check), safety installed afterwards through the public field
     pub frames: usize, // base/tool isometry choice
     pub layout: usize,
     pub safety: usize, // 0 touch, 1 3 cm
@@ -99,7 +99,16 @@ pub(crate) fn build(c: &Case, cell: &CellDesc) -> KinematicsWithShape {
         .collect();
     match c.ctor {
         0 | 1 => KinematicsWithShape::new(cell.params, cons, lm, base_mesh(1).to_parry(), to_na(&b), tool_mesh(1).to_parry(), to_na(&t), env, c.ctor == 0),
-        _ => KinematicsWithShape::with_safety(cell.params, cons, lm, base_mesh(1).to_parry(), to_na(&b), tool_mesh(1).to_parry(), to_na(&t), env, cell.safety.build()),
+        2 => KinematicsWithShape::with_safety(cell.params, cons, lm, base_mesh(1).to_parry(), to_na(&b), tool_mesh(1).to_parry(), to_na(&t), env, cell.safety.build()),
+        _ => {
+            // built with collision checking switched off, switched on afterwards through the public field
+            let mut r = KinematicsWithShape::with_safety(
+                cell.params, cons, lm, base_mesh(1).to_parry(), to_na(&b), tool_mesh(1).to_parry(), to_na(&t), env,
+                rs_opw_kinematics::collisions::SafetyDistances::standard(rs_opw_kinematics::collisions::CheckMode::NoCheck),
+            );
+            r.body.safety = cell.safety.build();
+            r
+        }
     }
 }
 
@@ -116,7 +125,7 @@ pub fn eval(c: &Case) -> (Vec<(String, String)>, String) {
     let inner = reference_stack(c, &cell);
     let given = constraints_for(c, &cell);
     let q = &c.q;
-    let ctor = ["new-first", "new-all", "with_safety"][c.ctor];
+    let ctor = ["new-first", "new-all", "with_safety", "with_safety-then-field"][c.ctor];
     // the stack built by the constructor is base * robot * tool with the given limits
     let want = cell.tcp(q);
     let (dp, da) = pose_dist(&from_na(&robot.forward(q)), &want);
@@ -274,14 +283,14 @@ pub fn run(ctx: &Ctx) -> Report {
     let qs = crate::c10::postures(false);
     let qs: Vec<Joints> = if thorough { qs } else { qs.into_iter().step_by(5).collect() };
     let layouts = [0usize, 2, 3, 9, 10, 11, 12, 13];
-    let sizes = [3, 3, layouts.len(), 2, 5, qs.len()];
+    let sizes = [4, 3, layouts.len(), 2, 5, qs.len()];
     let n = par::product(&sizes);
     let mut rep = par::run(n, |idx, r| {
         let mut ix = [0usize; 6];
         par::decode(idx, &sizes, &mut ix);
         let c = Case { ctor: ix[0], frames: ix[1], layout: layouts[ix[2]], safety: ix[3], limits: ix[4], q: qs[ix[5]] };
         // the safety axis only exists for with_safety
-        if c.ctor != 2 && c.safety == 1 {
+        if c.ctor < 2 && c.safety == 1 {
             return;
         }
         let (fails, sig) = eval(&c);
@@ -308,12 +317,12 @@ pub fn run(ctx: &Ctx) -> Report {
         rep.machinery_errors.push("no case where collisions removed some but not all answers".into());
     }
     rep.traces_validated = rep.transitions;
-    rep.rule = "constructors {new(first only), new(all), with_safety} x base/tool isometries {identity, shifted, rotated} x environments {free, near, blocking \
+    rep.rule = "constructors {new(first only), new(all), with_safety, with_safety(no check) followed by assigning the safety table through the public field} x base/tool isometries {identity, shifted, rotated} x environments {free, near, blocking \
                 slab/wall/cage, ...} x safety {touch, 3 cm} x limits {wide, window+weight with off-zero centres, window with hand-set centres/tolerances, wrapping J4/J6 ranges, J6 unconstrained} x J6 arguments {0.4, 2.9, 0.4 + 2 pi} x postures x four inverse entry points x previous {near the solution, CONSTRAINT_CENTERED, far out, each answer of the underlying stack itself}; oracle (differential): answers \
                 == ordered filter of the underlying stack's answers by an empty collision_details, bit-equal, while a second robot (same environment size, obstacles moved / other safety) is asked about the first candidate just before each call; forward, link poses, singularity bit-equal to the underlying stack (tool over base over the limited robot, built independently from the same pieces); \
                 stack == base*FK_ref*tool with the given limits; positioned_robot == link poses cast to f32, tool on link 6, environment passed through; \
                 signature = (constructor, kept k of n)".into();
-    rep.set("axes", json!({"constructors": 3, "frames": 3, "layouts": layouts.len(), "safety": 2, "limits": 5, "postures": qs.len()}));
+    rep.set("axes", json!({"constructors": 4, "frames": 3, "layouts": layouts.len(), "safety": 2, "limits": 5, "postures": qs.len()}));
     rep.assumptions.push("collides() itself is tied to the brute-force pair oracle by C10".into());
     rep
 }
